@@ -110,6 +110,9 @@ Fixpoint bitset_parts (ss : list string) (i : N) : list string :=
 Fixpoint rexpr (e : expr) (o : opts) (st : rst) {struct e} : string * rst :=
   match e with
   | Raw s => (s, st)
+  | Id s => (s, st)
+  | QRaw s => ("'" ++ s ++ "'", st)
+  | Idx x k => let '(s1, st1) := rexpr x o st in let '(s2, st2) := rexpr k o st1 in (s1 ++ "[" ++ s2 ++ "]", st2)
   | StrV s => (quote s, st)
   | IntV z => (string_of_Z z, st)
   | FloatV t => (t, st)
